@@ -58,6 +58,7 @@ def run(ctx):
         from .. import named
         named.monitor(ctx, ['attitude.mrp:init', 'attitude.mrp:predict', 'attitude.mrp:correct_accel', 'attitude.mrp:correct_mag', 'attitude.mrp:get_state'], ctx.rng("named"))
         ctx.require("call_by_argument_name", "(by-name calls never evaluated)")
+        named.derivation_history(ctx, ['attitude.mrp'], ctx.rng("named2"))
     eqs = get_eqs(ctx)
     if eqs is None:
         return
